@@ -296,7 +296,10 @@ def gen_mdoc_case(rng, idx, nmax, nforce=0):
     doc = {"hdr": [[k, rand_raw(rng)] for k in hkeys],
            "titles": rng.sample(sorted(tm.TITLES), rng.randint(0, 3)), "secs": []}
     used = set()
-    zs = list(range(n))
+    # section numbers: 0.., 1.., large consecutive, all zero (never assigned)
+    zmode = rng.choice(["zero-based", "zero-based", "one-based", "large", "all-zero"])
+    zs = {"zero-based": list(range(n)), "one-based": list(range(1, n + 1)), "large": list(range(100000, 100000 + n)),
+          "all-zero": [0] * n}[zmode]
     if rng.random() < 0.3:
         rng.shuffle(zs)
     for k in range(n):
@@ -479,6 +482,23 @@ def gen_dose(rng):
     return rng.choice([0, 0, rng.randint(0, 30000), rng.randint(0, 30000), rng.randint(0, 30000)])
 
 
+def gen_tomo_ids(rng, nt, k=None):
+    """Tomogram numbers: arbitrary three-digit numbers, a list containing 0, large consecutive numbers, numbers equal to
+    the length of the list (identifier values are data: 0 is a number like any other, 100001 and 100002 differ)."""
+    kind = (k if k is not None else rng.randrange(8)) % 4
+    if kind == 1:
+        ids = [0] + rng.sample(range(1, 999), nt - 1)
+    elif kind == 2:
+        start = rng.choice([100000, 100001, 999990])
+        ids = list(range(start, start + nt))
+    elif kind == 3:
+        ids = list(dict.fromkeys([nt] + rng.sample(range(1, 999), nt - 1)))
+    else:
+        ids = rng.sample(range(1, 999), nt)
+    rng.shuffle(ids)
+    return ids
+
+
 def gen_table_case(rng, idx):
     case = gen_table_case0(rng, idx)
     case.setdefault("style", rng.randrange(16))
@@ -509,7 +529,7 @@ def gen_table_case0(rng, idx):
                 "rows": gen_ctf(rng, n, fmt != "gctf_nophase")}
     # wedge lists
     nt = rng.randint(1, 5)
-    ids = rng.sample(range(1, 999), nt)
+    ids = gen_tomo_ids(rng, nt)
     mode = rng.choice(["single", "batch", "batch", "em", "sg2em"])
     if mode == "single":
         ids, nt = ids[:1], 1
@@ -558,7 +578,7 @@ def sweep_cases(rng, first_id, nhi):
             out.append({"kind": "loader", "id": idx, "what": "dose", "vals": [gen_dose(rng) for _ in range(n)], "input": inp})
             idx += 1
         for ctf in ("array", "gctf", "ctffind4"):
-            tomo = {"id": rng.randint(1, 998), "tilts": gen_tilts(rng, n), "ctf": gen_ctf(rng, n, True),
+            tomo = {"id": [0, 100000 + n, n, rng.randint(1, 998)][n % 4], "tilts": gen_tilts(rng, n), "ctf": gen_ctf(rng, n, True),
                     "dose": [gen_dose(rng) for _ in range(n)], "dim": [rng.randint(100, 5000), rng.randint(100, 5000), rng.randint(50, 3000)],
                     "zshift": gen_zshift(rng)}
             out.append({"kind": "wedge", "id": idx, "what": "single", "tomos": [tomo], "consts": gen_consts(rng), "tomo_input": "array",
@@ -571,7 +591,7 @@ def sweep_cases(rng, first_id, nhi):
     for dims_input in ("same", "table", "table_file", "per_tomo_files"):
         for z_input in ("scalar", "table", "table_file", "frame", "per_tomo_files"):
             nt = 2 + k % 3
-            ids = rng.sample(range(1, 999), nt)
+            ids = gen_tomo_ids(rng, nt, k)
             tomo_input = ["array", "file"][k % 2]
             mode = ["batch", "batch", "sg2em"][k % 3]
             if tomo_input == "file" or mode == "sg2em":
@@ -748,22 +768,25 @@ def exec_table_case(case, wd):
             return out
         # ---- wedge lists
         tomos, C = case["tomos"], case["consts"]
+        # tomogram numbers of any size: 0, the usual three digits, large consecutive numbers (six-digit file patterns)
+        w3 = 3 if max(t["id"] for t in tomos) < 1000 else 6
+        F3, F4, X3, X4 = "%%0%dd" % w3, "%%0%dd" % (w3 + 1), "$" + "x" * w3, "$" + "x" * (w3 + 1)
         px, volt, amp, cs = C["px"] / 1000.0, C["voltage"] / 10.0, C["amp"] / 1000.0, C["cs"] / 100.0
         sh = __import__("random").Random(case["shuffle"])
         for t in tomos:
-            tm.write_values(os.path.join(wd, "%03d.tlt" % t["id"]), t["tilts"], 100, 2, pad=" ")
+            tm.write_values(os.path.join(wd, (F3 + ".tlt") % t["id"]), t["tilts"], 100, 2, pad=" ")
             if t["dose"]:
-                tm.write_values(os.path.join(wd, "%04d_dose.txt" % t["id"]), t["dose"], 100, 2)
+                tm.write_values(os.path.join(wd, (F4 + "_dose.txt") % t["id"]), t["dose"], 100, 2)
             if t["ctf"]:
                 if case["ctf"] == "ctffind4":
-                    tm.write_ctffind4(os.path.join(wd, "%03d_ctf.txt" % t["id"]), t["ctf"])
+                    tm.write_ctffind4(os.path.join(wd, (F3 + "_ctf.txt") % t["id"]), t["ctf"])
                 else:
-                    tm.write_gctf(os.path.join(wd, "%03d_ctf.star" % t["id"]), t["ctf"], case["ctf"] != "gctf_nophase", *gctf_style(case, t["id"]))
-            with open(os.path.join(wd, "%03d_dim.txt" % t["id"]), "w") as fh:
+                    tm.write_gctf(os.path.join(wd, (F3 + "_ctf.star") % t["id"]), t["ctf"], case["ctf"] != "gctf_nophase", *gctf_style(case, t["id"]))
+            with open(os.path.join(wd, (F3 + "_dim.txt") % t["id"]), "w") as fh:
                 fh.write("%d %d %d\n" % tuple(t["dim"]))
-            with open(os.path.join(wd, "%03d_zshift.txt" % t["id"]), "w") as fh:
+            with open(os.path.join(wd, (F3 + "_zshift.txt") % t["id"]), "w") as fh:
                 fh.write("%s\n" % tm.dec(t["zshift"], 10, 1))
-            for fn in ("%03d.tlt", "%04d_dose.txt", "%03d_ctf.txt", "%03d_ctf.star", "%03d_dim.txt", "%03d_zshift.txt"):
+            for fn in (F3 + ".tlt", F4 + "_dose.txt", F3 + "_ctf.txt", F3 + "_ctf.star", F3 + "_dim.txt", F3 + "_zshift.txt"):
                 if os.path.exists(os.path.join(wd, fn % t["id"])):
                     styled(os.path.join(wd, fn % t["id"]))
         ids = [t["id"] for t in tomos]
@@ -771,29 +794,29 @@ def exec_table_case(case, wd):
             tomo_list = os.path.join(wd, "tomo_list.txt")
             with open(tomo_list, "w") as fh:
                 for i in ids:
-                    fh.write("%03d\n" % i)
+                    fh.write((F3 + "\n") % i)
             styled(tomo_list)
         else:
             tomo_list = W(np.array(ids), "tomo_list")
-        tlt_fmt = os.path.join(wd, "$xxx.tlt")
+        tlt_fmt = os.path.join(wd, X3 + ".tlt")
         if what == "single":
             t = tomos[0]
-            tlt = os.path.join(wd, "%03d.tlt" % t["id"]) if case["tlt_input"] == "file" else W((np.array(t["tilts"], dtype=float) / 100.0).astype(fdt), "tlt_file")
+            tlt = os.path.join(wd, (F3 + ".tlt") % t["id"]) if case["tlt_input"] == "file" else W((np.array(t["tilts"], dtype=float) / 100.0).astype(fdt), "tlt_file")
             ctf_file, ctf_type = None, "gctf"
             if t["ctf"]:
                 if case["ctf"] == "ctffind4":
-                    ctf_file, ctf_type = os.path.join(wd, "%03d_ctf.txt" % t["id"]), "ctffind4"
+                    ctf_file, ctf_type = os.path.join(wd, (F3 + "_ctf.txt") % t["id"]), "ctffind4"
                 elif case["ctf"] == "array":
                     ctf_file = W(np.array([[r["u"] / 1e5, r["v"] / 1e5, r["ang"] / 100.0, r["ps"] / 1000.0,
                                             (r["u"] / 1e5 + r["v"] / 1e5) / 2.0] for r in t["ctf"]]), "ctf_file")
                 else:
-                    ctf_file = os.path.join(wd, "%03d_ctf.star" % t["id"])
+                    ctf_file = os.path.join(wd, (F3 + "_ctf.star") % t["id"])
             dose = None
             if t["dose"]:
-                dose = os.path.join(wd, "%04d_dose.txt" % t["id"]) if case["dose"] == "file" else W((np.array(t["dose"], dtype=float) / 100.0).astype(fdt), "dose_file")
+                dose = os.path.join(wd, (F4 + "_dose.txt") % t["id"]) if case["dose"] == "file" else W((np.array(t["dose"], dtype=float) / 100.0).astype(fdt), "dose_file")
             dim = [W(list(t["dim"]), "tomo_dim"), W(np.array(t["dim"], dtype=[float, int][case["variant"] % 2]), "tomo_dim"),
-                   os.path.join(wd, "%03d_dim.txt" % t["id"])][case["variant"] % 3]
-            zsh = [t["zshift"] / 10.0, os.path.join(wd, "%03d_zshift.txt" % t["id"])][(case["variant"] // 3) % 2]
+                   os.path.join(wd, (F3 + "_dim.txt") % t["id"])][case["variant"] % 3]
+            zsh = [t["zshift"] / 10.0, os.path.join(wd, (F3 + "_zshift.txt") % t["id"])][(case["variant"] // 3) % 2]
             star = os.path.join(wd, "single.star")
             # drop_nan_columns=False keeps the unset defocus / exposure columns (all NaN): the same table
             df = wedgeutils.create_wedge_list_sg(t["id"], dim, px, tlt, z_shift=zsh, ctf_file=ctf_file, ctf_file_type=ctf_type,
@@ -818,11 +841,11 @@ def exec_table_case(case, wd):
         # batch (also the first half of sg2em)
         kw = {}
         if case["ctf"] == "ctffind4":
-            kw.update(ctf_file_format=os.path.join(wd, "$xxx_ctf.txt"), ctf_file_type="ctffind4")
+            kw.update(ctf_file_format=os.path.join(wd, X3 + "_ctf.txt"), ctf_file_type="ctffind4")
         elif case["ctf"] in ("gctf", "gctf_nophase", "array"):
-            kw.update(ctf_file_format=os.path.join(wd, "$xxx_ctf.star"), ctf_file_type="gctf")
+            kw.update(ctf_file_format=os.path.join(wd, X3 + "_ctf.star"), ctf_file_type="gctf")
         if case["dose"] != "none":
-            kw.update(dose_file_format=os.path.join(wd, "$xxxx_dose.txt"))
+            kw.update(dose_file_format=os.path.join(wd, X4 + "_dose.txt"))
         order = list(range(len(tomos)))
         sh.shuffle(order)                                       # tables are keyed by tomogram id, not by row position
         if case["dims_input"] == "same":
@@ -836,7 +859,7 @@ def exec_table_case(case, wd):
                     fh.write("%d %d %d %d\n" % tuple([tomos[k]["id"]] + tomos[k]["dim"]))
             kw.update(tomo_dim=styled(path))
         else:
-            kw.update(tomo_dim_file_format=os.path.join(wd, "$xxx_dim.txt"))
+            kw.update(tomo_dim_file_format=os.path.join(wd, X3 + "_dim.txt"))
         sh.shuffle(order)
         if case["z_input"] == "scalar":
             kw.update(z_shift=tomos[0]["zshift"] / 10.0)
@@ -858,7 +881,7 @@ def exec_table_case(case, wd):
                     fh.write("%d %s\n" % (tomos[k]["id"], tm.dec(tomos[k]["zshift"], 10, 1)))
             kw.update(z_shift=styled(path))
         else:
-            kw.update(z_shift_file_format=os.path.join(wd, "$xxx_zshift.txt"))
+            kw.update(z_shift_file_format=os.path.join(wd, X3 + "_zshift.txt"))
         star = os.path.join(wd, "batch.star")
         df = wedgeutils.create_wedge_list_sg_batch(tomo_list, px, tlt_fmt, voltage=volt, amp_contrast=amp, cs=cs,
                                                    output_file=star, **kw)
@@ -899,7 +922,7 @@ def gen_session_case(rng, idx):
             c["via"] = rng.choice(["read", "defocus_load"])
         calls.append(c)
     return {"kind": "session", "id": idx, "imgs": imgs, "ctf": gen_ctf(rng, n, fmt != "gctf_nophase"), "fmt": fmt,
-            "dosevals": [gen_dose(rng) for _ in range(n)], "tid": rng.randint(1, 998),
+            "dosevals": [gen_dose(rng) for _ in range(n)], "tid": rng.choice([0, 0, 100001, rng.randint(1, 998), rng.randint(1, 998)]),
             "dim": [rng.randint(100, 5000), rng.randint(100, 5000), rng.randint(50, 3000)], "zshift": gen_zshift(rng),
             "consts": gen_consts(rng),
             "calls": calls, "variant": rng.randrange(1000)}
